@@ -342,6 +342,12 @@ func contractFiles() (map[string]string, []string) {
 			continue // use mirror
 		}
 		mb, _ := os.ReadFile(mpath)
+		if os.Getenv("VERIF_REPO") != "" {
+			// a scratch copy of the repository (self-test, mutation runs) carries its own contract files: they are
+			// what that copy is checked against, whatever the mirror looks like by now
+			res[rel] = rpath
+			continue
+		}
 		if !bytes.Equal(rb, mb) {
 			problems = append(problems, fmt.Sprintf("contract file %s differs from its mirror %s (run /verif/sync_contracts.sh)", rpath, mpath))
 			continue // development: the mirror is what is being edited; "check" refuses to run on a mismatch
